@@ -696,6 +696,170 @@ Lemma stop_flushes_orig_witness :
     [(RW 2 0, []); (RStop 0, [EW [x61; x62] 2; ES]); (RW 2 0, [EW [x63; x64] 2]); (RStop 0, [ES])].
 Proof. split; vm_compute; reflexivity. Qed.
 
+(* ---------- lifecycle of the flush goroutine: ANY sink (errors, short writes), both code versions ---------- *)
+(* the flags alone: an uninitialised syncer is not stopped and has no loop; an initialised one has
+   its loop exactly while it is not stopped.  (A Stop that marked an uninitialised syncer stopped
+   would break the first clause: the next Write would start a loop no later Stop ends.) *)
+Definition LInv (s : st) : Prop :=
+  (inited s = false -> stopped s = false /\ loop s = false) /\
+  (inited s = true -> loop s = negb (stopped s)).
+Lemma LInv_loop s : LInv s -> loop s = is_running (phase_of s).
+Proof. intros [Hu Hi]. unfold phase_of. destruct (inited s) eqn:E; cbn.
+  - rewrite (Hi eq_refl). destruct (stopped s); reflexivity.
+  - now destruct (Hu eq_refl) as [_ ->]. Qed.
+Lemma LInv_init c outs : LInv (init c outs).
+Proof. split; cbn; [auto|discriminate]. Qed.
+
+Lemma sync_flags s : inited (snd (fst (bws_sync s))) = inited s /\ stopped (snd (fst (bws_sync s))) = stopped s /\
+  loop (snd (fst (bws_sync s))) = loop s.
+Proof. unfold bws_sync. destruct (if inited s then bflush (w s) (k s) else (0, w s, [], k s)) as [[[e1 b1] es1] k1].
+  unfold sink_sync. cbn. auto. Qed.
+Lemma write_flags fx s bs : inited (fst (fst (bws_write fx s bs))) = true /\
+  stopped (fst (fst (bws_write fx s bs))) = stopped s /\
+  loop (fst (fst (bws_write fx s bs))) = (if inited s then loop s else true).
+Proof. unfold bws_write. set (s0 := if inited s then s else initialize s).
+  assert (H0 : inited s0 = true /\ stopped s0 = stopped s /\ loop s0 = if inited s then loop s else true).
+  { unfold s0. destruct (inited s) eqn:E; cbn; auto. }
+  set (pre := (avail (w s0) <? length bs) && negb (is_nil (buf (w s0)))).
+  destruct (if pre then bflush (w s0) (k s0) else (0, w s0, [], k s0)) as [[[e0 b1] es1] k1].
+  destruct (negb (e0 =? 0)); [exact H0|].
+  destruct (bwrite (wfuel bs) b1 k1 bs) as [[[[n e] b2] es2] k2].
+  destruct (fx && stopped s0 && (e =? 0)); [|exact H0].
+  destruct (bflush b2 k2) as [[[e3 b3] es3] k3]. exact H0. Qed.
+
+Lemma not_running_after_stop p : is_running (phase_step p Stop) = false.
+Proof. destruct p; reflexivity. Qed.
+
+Lemma step_life fx s o : LInv s ->
+  LInv (fst (fst (step_gen fx s o))) /\ phase_of (fst (fst (step_gen fx s o))) = phase_step (phase_of s) o /\
+  tick_ok (phase_of s) o (snd (fst (step_gen fx s o))) (snd (step_gen fx s o)) = true.
+Proof. intros HL. pose proof (LInv_loop s HL) as Hlp. destruct HL as [Hu Hi]. destruct o as [bs| | |]; cbn [step_gen].
+  - (* Write *)
+    destruct (write_flags fx s bs) as (Hin & Hst & Hlo). split; [|split].
+    + split; [rewrite Hin; discriminate|]. intros _. rewrite Hlo, Hst. destruct (inited s) eqn:E; [now apply Hi|].
+      now destruct (Hu eq_refl) as [-> _].
+    + unfold phase_of. rewrite Hin, Hst. cbn [negb]. destruct (inited s) eqn:E; cbn [negb].
+      * destruct (stopped s); reflexivity.
+      * now destruct (Hu eq_refl) as [-> _].
+    + destruct (bws_write fx s bs) as [[s1 r] es]. reflexivity.
+  - (* Sync *)
+    destruct (sync_flags s) as (Hin & Hst & Hlo). destruct (bws_sync s) as [[e s1] es]. cbn [fst snd] in *.
+    split; [|split].
+    + unfold LInv. rewrite Hin, Hst, Hlo. auto.
+    + unfold phase_of. rewrite Hin, Hst. destruct (inited s), (stopped s); reflexivity.
+    + reflexivity.
+  - (* Tick *)
+    destruct (loop s) eqn:El.
+    + destruct (sync_flags s) as (Hin & Hst & Hlo). destruct (bws_sync s) as [[e s1] es]. cbn [fst snd] in *.
+      split; [|split].
+      * unfold LInv. rewrite Hin, Hst, Hlo, El. auto.
+      * unfold phase_of. rewrite Hin, Hst. destruct (inited s), (stopped s); reflexivity.
+      * cbn [tick_ok]. rewrite <- Hlp. reflexivity.
+    + cbn [fst snd]. split; [unfold LInv; rewrite El; split; assumption|split].
+      * destruct (phase_of s); reflexivity.
+      * cbn [tick_ok]. rewrite <- Hlp. reflexivity.
+  - (* Stop *)
+    unfold bws_stop. destruct (inited s) eqn:E; cbn [negb].
+    + destruct (stopped s) eqn:St.
+      * assert (Hp : phase_of s = Stopped) by (unfold phase_of; rewrite E, St; reflexivity).
+        destruct fx; cbn [fst snd].
+        -- unfold sink_sync. cbn [fst snd]. split; [|split; [|reflexivity]].
+           ++ unfold LInv. cbn [upd inited stopped loop]. rewrite E, St. auto.
+           ++ unfold phase_of at 1. cbn [upd inited stopped]. rewrite E, St, Hp. reflexivity.
+        -- split; [unfold LInv; rewrite E, St; split; assumption|split; [|reflexivity]]. rewrite Hp. reflexivity.
+      * assert (Hp : phase_of s = Running) by (unfold phase_of; rewrite E, St; reflexivity).
+        set (s1 := {| cfg := cfg s; inited := true; stopped := true; loop := false; w := w s; k := k s |}).
+        destruct (sync_flags s1) as (Hin & Hst & Hlo). destruct (bws_sync s1) as [[e s2] es]. cbn [fst snd] in *.
+        split; [|split; [|reflexivity]].
+        -- unfold LInv. rewrite Hin, Hst, Hlo. cbn. split; [discriminate|reflexivity].
+        -- unfold phase_of at 1. rewrite Hin, Hst, Hp. reflexivity.
+    + assert (Hp : phase_of s = Fresh) by (unfold phase_of; rewrite E; reflexivity).
+      cbn [fst snd]. split; [unfold LInv; rewrite E; split; assumption|split; [|reflexivity]]. rewrite Hp. reflexivity. Qed.
+
+Lemma run_life fx ops : forall s, LInv s ->
+  LInv (fst (run_gen fx s ops)) /\ phase_of (fst (run_gen fx s ops)) = fold_left phase_step ops (phase_of s) /\
+  lrun (phase_of s) ops (snd (run_gen fx s ops)) (lives_gen fx s ops) = Some (phase_of (fst (run_gen fx s ops))).
+Proof. induction ops as [|o r IH]; intros s HL; cbn [run_gen lives_gen fold_left].
+  - cbn. auto.
+  - destruct (step_life fx s o HL) as (HL1 & Hp1 & Ht). destruct (step_gen fx s o) as [[s1 rs] es]. cbn [fst snd] in *.
+    destruct (IH s1 HL1) as (HL2 & Hp2 & Hr). destruct (run_gen fx s1 r) as [s2 tr]. cbn [fst snd lrun] in *.
+    split; [exact HL2|split].
+    + rewrite Hp2, Hp1. reflexivity.
+    + rewrite Ht, <- Hp1, <- (LInv_loop s1 HL1), eqb_reflx. cbn [andb]. exact Hr. Qed.
+
+(* the flush goroutine runs exactly from the first Write to the first Stop after it: any sink, both versions *)
+Theorem lifecycle_any_thm fx c outs ops :
+  loop (fst (run_gen fx (init c outs) ops)) = is_running (spec_phase ops).
+Proof. destruct (run_life fx ops (init c outs) (LInv_init c outs)) as (HL & Hp & _).
+  rewrite (LInv_loop _ HL), Hp. reflexivity. Qed.
+(* once any Stop has returned -- first or repeated, before or after the first Write, whatever the sink
+   answered -- no flush goroutine is left; and a loop that was running when Stop was called never
+   comes back, whatever follows *)
+Theorem stop_ends_loop_thm fx c outs ops ops2 :
+  loop (fst (run_gen fx (init c outs) (ops ++ [Stop]))) = false /\
+  (loop (fst (run_gen fx (init c outs) ops)) = true ->
+   loop (fst (run_gen fx (init c outs) (ops ++ Stop :: ops2))) = false).
+Proof. rewrite !lifecycle_any_thm. unfold spec_phase. rewrite !fold_left_app. cbn [fold_left]. split.
+  - apply not_running_after_stop.
+  - destruct (fold_left phase_step ops Fresh); try discriminate. intros _. cbn [phase_step].
+    induction ops2 as [|o r IH]; [reflexivity|]. cbn [fold_left]. destruct o; exact IH. Qed.
+(* a Stop on a syncer that has not been written to is a no-op: it does not use up the one effective
+   Stop -- after a later Write the loop runs and the next Stop ends it *)
+Lemma early_stops fx n : forall s, inited s = false -> fst (run_gen fx s (repeat Stop n)) = s.
+Proof. induction n as [|n IH]; intros s H; [reflexivity|]. cbn [repeat run_gen step_gen]. unfold bws_stop. rewrite H.
+  cbn [negb]. specialize (IH s H). destruct (run_gen fx s (repeat Stop n)) as [s2 tr]. exact IH. Qed.
+Theorem early_stop_noop_thm fx c outs n bs ops :
+  fst (run_gen fx (init c outs) (repeat Stop n)) = init c outs /\
+  loop (fst (run_gen fx (init c outs) (repeat Stop n ++ [Write bs]))) = true /\
+  loop (fst (run_gen fx (init c outs) (repeat Stop n ++ Write bs :: ops ++ [Stop]))) = false.
+Proof. split; [|split].
+  - now apply early_stops.
+  - rewrite lifecycle_any_thm. unfold spec_phase. rewrite fold_left_app.
+    assert (H : fold_left phase_step (repeat Stop n) Fresh = Fresh) by (induction n as [|m IHm]; [reflexivity|exact IHm]).
+    rewrite H. reflexivity.
+  - assert (E : repeat Stop n ++ Write bs :: ops ++ [Stop] = (repeat Stop n ++ Write bs :: ops) ++ [Stop])
+      by (rewrite <- app_assoc; reflexivity).
+    rewrite E. exact (proj1 (stop_ends_loop_thm fx c outs _ [])). Qed.
+
+Theorem life_ok_run c outs ops :
+  let '(s, tr) := run (init c outs) ops in life_ok ops tr (lives (init c outs) ops) (loop s) = true.
+Proof. destruct (run_life true ops (init c outs) (LInv_init c outs)) as (HL & _ & Hr). unfold run, lives.
+  destruct (run_gen true (init c outs) ops) as [s tr]. cbn [fst snd] in *. unfold life_ok.
+  change (phase_of (init c outs)) with Fresh in Hr. rewrite Hr, (LInv_loop s HL). apply eqb_reflx. Qed.
+
+(* soundness of the lifecycle oracle, independent of the model: what it accepts -- e.g. liveness
+   flags and tick results recorded from the real implementation -- is the documented lifecycle *)
+Lemma lrun_sound ops : forall p tr live p', lrun p ops tr live = Some p' ->
+  p' = fold_left phase_step ops p /\ live = map is_running (phases p ops) /\
+  (forall n d es, nth_error ops n = Some Tick -> nth_error tr n = Some (RT d, es) ->
+     d = is_running (fold_left phase_step (firstn n ops) p) /\ (d = false -> es = [])).
+Proof. induction ops as [|o r IH]; intros p tr live p' H; destruct tr as [|[rs es0] tr]; destruct live as [|l live];
+    cbn [lrun] in H; try discriminate.
+  - injection H as <-. split; [reflexivity|split; [reflexivity|]]. intros [|n] d es Hn; discriminate.
+  - destruct (Bool.eqb l (is_running (phase_step p o)) && tick_ok p o rs es0) eqn:C; [|discriminate].
+    apply andb_true_iff in C. destruct C as [Cl Ct]. apply eqb_prop in Cl.
+    destruct (IH _ _ _ _ H) as (Hp & Hlv & Htk). split; [exact Hp|split].
+    + cbn [phases map]. now rewrite Cl, Hlv.
+    + intros [|n] d es Ho Ht; cbn [nth_error firstn fold_left] in *.
+      * injection Ho as ->. injection Ht as -> ->. cbn [tick_ok] in Ct. apply andb_true_iff in Ct.
+        destruct Ct as [C1 C2]. apply eqb_prop in C1. split; [exact C1|]. intros ->. cbn [orb] in C2.
+        now apply is_nil_true.
+      * exact (Htk n d es Ho Ht). Qed.
+Lemma stop_flag_false ops : forall p n, nth_error ops n = Some Stop ->
+  nth_error (map is_running (phases p ops)) n = Some false.
+Proof. induction ops as [|o r IH]; intros p [|n] H; cbn [nth_error phases map] in *; try discriminate.
+  - injection H as ->. now rewrite not_running_after_stop.
+  - now apply IH. Qed.
+Theorem life_oracle_sound ops tr live alive : life_ok ops tr live alive = true ->
+  live = map is_running (phases Fresh ops) /\ alive = is_running (spec_phase ops) /\
+  (forall n, nth_error ops n = Some Stop -> nth_error live n = Some false) /\
+  (forall n d es, nth_error ops n = Some Tick -> nth_error tr n = Some (RT d, es) ->
+     d = is_running (spec_phase (firstn n ops)) /\ (d = false -> es = [])).
+Proof. unfold life_ok. destruct (lrun Fresh ops tr live) as [p'|] eqn:H; [|discriminate]. intros Ha.
+  apply eqb_prop in Ha. destruct (lrun_sound _ _ _ _ _ H) as (Hp & Hlv & Htk).
+  split; [exact Hlv|split; [now rewrite Ha, Hp|split; [|exact Htk]]].
+  intros n Hn. rewrite Hlv. now apply stop_flag_false. Qed.
+
 (* ---------- wire ---------- *)
 Lemma sx_eqb_refl s : sx_eqb s s = true.
 Proof. revert s. fix IH 1. intros [z|b|l]; cbn.
@@ -715,14 +879,19 @@ Proof. unfold dec_tr, enc_tr. cbn [sx_l]. rewrite map_map. rewrite <- (map_id tr
   intros [r es]. cbn [fst snd]. unfold sx_nth. cbn [sx_l nth]. rewrite dec_enc_res. cbn [sx_l]. rewrite map_map.
   f_equal. rewrite <- (map_id es) at 2. apply map_ext. apply dec_enc_ev. Qed.
 
+Lemma dec_enc_live l : dec_live (enc_live l) = l.
+Proof. unfold dec_live, enc_live. cbn [sx_l]. rewrite map_map. rewrite <- (map_id l) at 2. apply map_ext.
+  apply sx_bool_of_bool. Qed.
+
 Theorem spec_model i : spec i (model i) = true.
 Proof. unfold spec, model. destruct (dec_case i) as [[c ops] outs]. destruct (mode_of i).
-  - unfold sx_nth. cbn [sx_l nth]. rewrite dec_enc_tr, sx_bool_of_bool, sx_eqb_refl.
-    cbn [andb negb]. rewrite andb_true_r. exact (brun_weak ops (_, outs)).
+  - unfold sx_nth. cbn [sx_l nth]. rewrite dec_enc_tr, sx_bool_of_bool, dec_enc_live, sx_eqb_refl.
+    cbn [andb negb is_nil]. rewrite !andb_true_r. exact (brun_weak ops (_, outs)).
   - pose proof (strong_ok_run c outs ops) as HS. pose proof (run_weak true ops (init c outs) (fun _ => eq_refl)) as HWk.
+    pose proof (life_ok_run c outs ops) as HL.
     unfold run in *. destruct (run_gen true (init c outs) ops) as [s tr]. cbn [snd] in HWk.
-    unfold sx_nth. cbn [sx_l nth]. rewrite dec_enc_tr, sx_bool_of_bool, sx_eqb_refl. cbn [andb].
-    destruct (reliable outs); [now apply HS|exact HWk]. Qed.
+    unfold sx_nth. cbn [sx_l nth]. rewrite dec_enc_tr, sx_bool_of_bool, dec_enc_live, sx_eqb_refl. cbn [andb].
+    rewrite HL. cbn [andb]. destruct (reliable outs); [now apply HS|exact HWk]. Qed.
 
 (* ---------- the fuel of bwrite is enough (so the out-of-fuel default is never observed) ---------- *)
 (* a sink never answers (0, nil) to a non-empty write: otherwise bufio.Writer.Write spins *)
